@@ -446,7 +446,10 @@ func (w *c12) exec(op *c12op) {
 // `before` is in the sink, and the sink was synced after the last of those bytes.
 func (w *c12) checkAllDelivered(what string, before int64) {
 	c := w.c
-	ids, ok, why := w.parse(w.sink.Data)
+	// a sink write of another task may be in progress right now (that a
+	// returning Sync or Stop excludes it is how zap happens to lock, not
+	// something the statement says); it is judged when it completes
+	ids, ok, why := w.parse(w.sink.Committed())
 	if !ok {
 		c.Fail("C12-B: the sink stream is not a sequence of whole caller writes", "at %s: %s", what, why)
 		return
@@ -477,7 +480,7 @@ func (w *c12) checkAllDelivered(what string, before int64) {
 // checkOrder: invariant B over the whole sink stream.
 func (w *c12) checkOrder() {
 	c := w.c
-	ids, ok, why := w.parse(w.sink.Data)
+	ids, ok, why := w.parse(w.sink.Committed())
 	if !ok {
 		c.Fail("C12-B: the sink stream is not a sequence of whole caller writes", "%s", why)
 		return
